@@ -204,7 +204,11 @@ pub fn execute(p: &P, seed: u64) -> RunOut {
                     out.stats.max("c05_every_instance_idle_max_n", n as u64);
                     out.stats.inc(&format!("c05_every_instance_idle_{}", p.shape));
                 }
-                let tag = if all_idle { "C05/no-convergence-after-heal:every-instance-idle" } else if silent { "C05/cluster-fell-silent-after-heal" } else { "C05/no-convergence-after-heal" };
+                // K-C05-1: two renewed members hold each other's superseded identity as Down
+                let live = w.live_addrs();
+                let holds_stale_down = |a: u16, b: u16| w.proc(a).unwrap().obs.slot(b).is_some_and(|m| m.state() == State::Down && w.id_of(b).gen > m.id().gen);
+                let mutually_superseded = live.iter().any(|a| live.iter().any(|b| a != b && holds_stale_down(*a, *b) && holds_stale_down(*b, *a)));
+                let tag = if all_idle && mutually_superseded { "C05/no-convergence-after-heal:every-instance-idle:mutually-superseded" } else if all_idle { "C05/no-convergence-after-heal:every-instance-idle" } else if silent { "C05/cluster-fell-silent-after-heal" } else { "C05/no-convergence-after-heal" };
                 vs.push(Violation { property: "C05", tag: tag.into(), detail: format!("{}: {} announce-to-down periods + {} probe periods after the heal (stopped at t={}ms, healed at t={}ms, event queue empty: {silent}): {detail}; instances: {:?}", p.shape, n + 8, 2 * n + 1, w.now / MS, th / MS, conns), at: w.now });
             }
         }
